@@ -10,11 +10,18 @@ from harness import flowsym
 from harness.impl import c01
 
 
+SNAPSHOT = False   # stateful actors restore their hyper-parameter from the state (flowsym.Snapshot)
+HP_SHIFT = 0       # "the code changed": every hyper-parameter of this expansion is shifted by this much
+
+
 def make_operator(spec):
     """spec: {'apply': actor|None, 'train': actor|'same'|None, 'label': actor|None}; actor = [name, hp, stateful]."""
 
     def cls(actor):
-        return flowsym.Stateful if actor[2] else flowsym.Stateless
+        return (flowsym.Snapshot if SNAPSHOT else flowsym.Stateful) if actor[2] else flowsym.Stateless
+
+    if HP_SHIFT:
+        spec = {k: ([v[0], v[1] + HP_SHIFT, v[2]] if isinstance(v, list) else v) for k, v in spec.items()}
 
     op = None
     if spec.get('apply') and spec.get('train') == 'same':
